@@ -14,3 +14,4 @@ MODULES += ["validation"]
 MODULES += ["testing"]
 MODULES += ["lemmas"]
 MODULES += ["generators"]
+MODULES += ["logwriter"]
